@@ -287,7 +287,14 @@ func (v *Value) Len() int {
 func (v *Value) Slice(i, j int) *Value {
 	switch v.getResolvedValue().Kind() {
 	case reflect.Array, reflect.Slice:
-		return AsValue(v.getResolvedValue().Slice(i, j).Interface())
+		rv := v.getResolvedValue()
+		if rv.Kind() == reflect.Array && !rv.CanAddr() {
+			// An array value that is not addressable cannot be sliced in place
+			addressable := reflect.New(rv.Type()).Elem()
+			addressable.Set(rv)
+			rv = addressable
+		}
+		return AsValue(rv.Slice(i, j).Interface())
 	case reflect.String:
 		runes := []rune(v.getResolvedValue().String())
 		return AsValue(string(runes[i:j]))
